@@ -135,8 +135,18 @@ Definition start_api_at (ins : list (N * input)) (t : N) : bool :=
                                     | _ => false
                                     end) ins.
 
+(* the oracle value every draw of the run returns - known only when all supplied draws are equal AND the run cannot
+   exhaust them (an exhausted oracle returns the lower bound): every start of an instance / of the find client and every
+   multicast FindService may take one *)
+Definition draw_consumers (sc : scenario) : nat :=
+  let ins := inputs_of sc in
+  let starts := length (filter (fun p => match snd p with
+                                         | IApi ApiStart | IApi ApiAnnStart | IApi (ApiAnnounce _) | IApi ApiDiscStart => true
+                                         | _ => false end) ins) in
+  let finds := length (filter (fun p => match snd p with IFind _ _ _ => true | _ => false end) ins) in
+  (starts * S (length (sc_insts sc)) + finds)%nat.
 Definition the_draw (sc : scenario) (lo hi : N) : option N :=
-  if all_equal (sc_draws sc) then
+  if all_equal (sc_draws sc) && Nat.leb (draw_consumers sc) (length (sc_draws sc)) then
     match sc_draws sc with [] => Some lo | d :: _ => Some (N.max lo (N.min hi d)) end
   else None.
 
@@ -285,7 +295,8 @@ Definition check_C12_inst (sc : scenario) (ins : list (N * input)) (sent : list 
                     match running_at i (t + delay) ivs with
                     | Some ts' => if (ts' =? ts) && negb (stop_api_at ins (t + delay)) && negb (stop_api_at ins t)
                                   then [Some (a, t + delay, t + delay + t_collect c)]
-                                  else if ts' =? ts then [None] else []
+                                  else [None]   (* stopped (and perhaps restarted) while the answer was pending: the answer may
+                                                   be dropped or, if the instance is ready again, sent - not judged *)
                     | None => if stop_api_at ins (t + delay) then [None] else []
                     end
                 | _ => []
